@@ -1,10 +1,10 @@
 package verifharness
 
 import (
-	"net/http/httptest"
 	"bytes"
 	"encoding/json"
 	"fmt"
+	"net/http/httptest"
 	"runtime"
 	"sort"
 	"strconv"
@@ -24,12 +24,12 @@ import (
 // and releases them in the order the schedule says. ----
 
 type SdCase struct {
-	Scenario int   `json:"scenario"` // 1 expiry vs ejection, 2 half-open trials, 3 strategy switch vs add / remove
-	Kinds    []int `json:"kinds"`    // scenario 1: 0 checker 1 ejector; scenario 3: 0 set_strategy 1 add 2 remove
-	N        int   `json:"n"`        // scenario 2: callers
-	Max      int   `json:"max"`      // scenario 2: max_requests
-	Schedule []int `json:"schedule"`
-	Init     []int `json:"init,omitempty"`   // scenario 4: per backend 1 = healthy, 0 = ejected with an elapsed window
+	Scenario int    `json:"scenario"` // 1 expiry vs ejection, 2 half-open trials, 3 strategy switch vs add / remove, 4 pick vs flips, 5 listing vs removals, 6 adds of one name
+	Kinds    []int  `json:"kinds"`    // scenario 1: 0 checker 1 ejector; scenario 3: 0 set_strategy 1 add 2 remove
+	N        int    `json:"n"`        // scenario 2: callers
+	Max      int    `json:"max"`      // scenario 2: max_requests
+	Schedule []int  `json:"schedule"`
+	Init     []int  `json:"init,omitempty"`   // scenario 4: per backend 1 = healthy, 0 = ejected with an elapsed window
 	Client   string `json:"client,omitempty"` // scenario 4: RemoteAddr host of the picking request
 }
 
@@ -161,6 +161,7 @@ var sdLabels = map[string]int{
 	"beforeRequest:RLock": 4, "beforeRequest:Lock": 5, "Execute:Lock": 6, "afterRequest:Lock": 7,
 	"SetStrategy:Lock": 8, "AddBackend:Lock": 9, "RemoveBackend:Lock": 10, "Put:Lock": 11, "Shutdown:Lock": 12,
 	"SetStrategy:RLock": 13, "NextBackend:RLock": 14, "markedHealthy:RLock": 15, "ListBackends:RLock": 16,
+	"AddBackend:RLock": 17, "findHealthyBackend:RLock": 18,
 }
 
 func installSchedHooks() {
@@ -315,6 +316,77 @@ func runSdCase(c SdCase) (string, map[string]int) {
 			obs = append(obs, id)
 		}
 		lb.Stop()
+	case 7:
+		// a request choosing its backend while the pool is changed under it
+		lb := sdLBStrategy(3, "round_robin")
+		bs := lb.VerifBackends()
+		var picks []*int
+		var threads []func()
+		for _, k := range c.Kinds {
+			switch k {
+			case 50:
+				ret := new(int)
+				picks = append(picks, ret)
+				threads = append(threads, func() {
+					req := httptest.NewRequest("GET", "http://lb.local/x", nil)
+					req.RemoteAddr = "10.0.0.1:4000"
+					b := lb.VerifFindHealthyBackend(req)
+					*ret = 0
+					if b != nil {
+						fmt.Sscanf(b.Name, "n%d", ret)
+					}
+				})
+			case 51:
+				threads = append(threads, func() {
+					lb.AddBackend(config.BackendConfig{Name: "n7", Address: "http://sd7.probe", Weight: 1})
+				})
+			default:
+				threads = append(threads, func() { lb.RemoveBackend("n1") })
+			}
+		}
+		_ = bs
+		ctl, finished = runThreads(c.Schedule, threads)
+		listed := map[int]bool{}
+		if finished {
+			for _, bi := range lb.ListBackends() {
+				var id int
+				fmt.Sscanf(bi.Name, "n%d", &id)
+				listed[id] = true
+			}
+		}
+		for _, id := range []int{1, 2, 3, 7} {
+			obs = append(obs, b2i(listed[id]))
+		}
+		for _, p := range picks {
+			obs = append(obs, *p)
+		}
+		if finished {
+			lb.Stop()
+		}
+	case 6:
+		// several AddBackend calls with one name: exactly one may be answered "added"
+		lb := sdLB(2)
+		rets := make([]int, c.N)
+		var threads []func()
+		for i := 0; i < c.N; i++ {
+			i := i
+			threads = append(threads, func() {
+				if err := lb.AddBackend(config.BackendConfig{Name: "n7", Address: fmt.Sprintf("http://sd%d.probe", i), Weight: 1}); err == nil {
+					rets[i] = 1
+				} else {
+					rets[i] = 2
+				}
+			})
+		}
+		ctl, finished = runThreads(c.Schedule, threads)
+		cnt := 0
+		for _, bi := range lb.ListBackends() {
+			if bi.Name == "n7" {
+				cnt++
+			}
+		}
+		obs = append([]int{cnt}, rets...)
+		lb.Stop()
 	case 3:
 		lb := sdLB(2)
 		var threads []func()
@@ -450,6 +522,29 @@ func TestSched(t *testing.T) {
 		}
 		for _, s := range interleavings(counts, lim, g) {
 			emit("enum", SdCase{Scenario: 3, Kinds: kinds, Schedule: s})
+		}
+	}
+	// scenario 7: one or two selections of a backend (a selection is 7 sections over three backends, 8 once n7 is listed) against
+	// an add and / or a removal, every interleaving (sampled beyond the limit); each thread gets extra steps
+	for _, kinds := range [][]int{{50, 51}, {50, 52}, {50, 51, 52}, {50, 50, 51}} {
+		counts := make([]int, len(kinds))
+		for i, k := range kinds {
+			counts[i] = map[int]int{50: 9, 51: 3, 52: 3}[k]
+		}
+		for _, s := range interleavings(counts, lim, g) {
+			emit("enum", SdCase{Scenario: 7, Kinds: kinds, Schedule: s})
+		}
+	}
+	// scenario 6: two or three adds of one name, every interleaving (an add is one section; each thread gets two more steps,
+	// so a check that moved out of the write lock is both seen as a second yield and explored)
+	for _, n := range []int{2, 3} {
+		counts := make([]int, n)
+		kinds := make([]int, n)
+		for i := range counts {
+			counts[i], kinds[i] = 3, 1
+		}
+		for _, s := range interleavings(counts, lim, g) {
+			emit("enum", SdCase{Scenario: 6, N: n, Kinds: kinds, Schedule: s})
 		}
 	}
 	// scenario 4: one pick of every strategy over 3 backends against one or two flips, every interleaving.  A picker needs
